@@ -38,6 +38,13 @@ let () =
         match (match split_ws line with
                | ["W"; variant; ops] -> run_writes_line variant ops None; Some ("", "", "", "", None, None)
                | ["W"; variant; ops; fill] -> run_writes_line variant ops (Some (z_of_string fill)); Some ("", "", "", "", None, None)
+               | ["D"; arch; off; w; flags; e] ->
+                 (match run_decode (z_of_string arch) (z_of_string off) (z_of_string w) (z_of_string flags) (e = "B") with
+                  | Some (v, [regs; sp; ip]) ->
+                    print_endline ("rd=" ^ string_of_name v ^ ";regs=" ^ show_cell regs ^ ";sp=" ^ show_cell sp ^ ";ip=" ^ show_cell ip)
+                  | Some (v, _) -> print_endline ("rd=" ^ string_of_name v)
+                  | None -> print_endline "E;;run_decode");
+                 Some ("", "", "", "", None, None)
                | "R" :: arch :: fill :: len :: be ->
                  let show = function CNum x -> string_of_z x | _ -> "P" in
                  print_endline (match run_read (z_of_string arch) (z_of_string fill) (z_of_string len) (be = ["B"]) with
